@@ -76,13 +76,14 @@ type ContractSet struct {
 	Invs   map[string]*NamedInv
 	Lemmas []*Lemma
 	Files  []string
+	OpaqueSorts map[string]bool
 }
 
 func NewContractSet() *ContractSet {
-	return &ContractSet{Funcs: map[string]*FuncContract{}, Specs: map[string]*SpecFn{}, Ghosts: map[string]*GhostDecl{}, Invs: map[string]*NamedInv{}}
+	return &ContractSet{Funcs: map[string]*FuncContract{}, Specs: map[string]*SpecFn{}, Ghosts: map[string]*GhostDecl{}, Invs: map[string]*NamedInv{}, OpaqueSorts: map[string]bool{}}
 }
 
-var kwRe = regexp.MustCompile(`^(spec|axiom|ghost|inv|func|extern|requires|ensures|modifies|may_panic|deterministic|nooverflow|inline|mode|bytes|loop|assert|locals|lemma|trusted|pure|opaque|reveal|bounded|keyfns|keyfn)\b`)
+var kwRe = regexp.MustCompile(`^(spec|axiom|ghost|inv|func|extern|requires|ensures|modifies|may_panic|deterministic|nooverflow|inline|mode|bytes|loop|assert|locals|lemma|trusted|pure|opaque|reveal|bounded|keyfns|keyfn|sort)\b`)
 
 // logical lines: (keyword, rest, line number)
 type cline struct {
@@ -282,6 +283,11 @@ func (cs *ContractSet) LoadFile(path, pkgPath string) error {
 				cs.Lemmas = append(cs.Lemmas, &Lemma{Name: name, Expr: c.Expr, Src: c.Src, Pkg: pkgPath})
 			case "inv":
 				cs.Invs[name] = &NamedInv{Name: name, Expr: c.Expr, Pkg: pkgPath}
+			}
+			cur = nil
+		case "sort":
+			for _, nm := range strings.Fields(l.rest) {
+				cs.OpaqueSorts[nm] = true
 			}
 			cur = nil
 		case "keyfns":
